@@ -2534,15 +2534,22 @@ class ProvDocument(ProvBundle):
                 # a plain local file name: use it as it is (characters such
                 # as '#', '?' and ';' are not URL syntax here)
                 path = os.fspath(location)
-            fd, name = tempfile.mkstemp()
-            stream = os.fdopen(fd, "wb")
-            serializer.serialize(stream, **args)
-            stream.close()
-            if hasattr(shutil, "move"):
-                shutil.move(name, path)
-            else:
-                shutil.copy(name, path)
-                os.remove(name)
+            # Write to a temporary file next to the destination and rename it
+            # into place, so that the destination either keeps its previous
+            # content or holds the complete new one
+            fd, name = tempfile.mkstemp(
+                dir=os.path.dirname(os.path.abspath(path)), prefix=".prov-", suffix=".tmp"
+            )
+            try:
+                with os.fdopen(fd, "wb") as stream:
+                    serializer.serialize(stream, **args)
+                os.replace(name, path)
+            except BaseException:
+                try:
+                    os.remove(name)
+                except OSError:
+                    pass
+                raise
 
     @staticmethod
     def deserialize(source=None, content=None, format="json", **args):
